@@ -54,6 +54,7 @@ func c12Scenario() *Scenario {
 		mc.AcctSpec{Name: "A", Coins: Coins(1000, 0).Add(coin(mc.Tok, big110))},
 		mc.AcctSpec{Name: "B", Coins: Coins(1000, 0).Add(coin(mc.Tok, big110))},
 		mc.AcctSpec{Name: "R1", Coins: Coins(1000, 0)}, mc.AcctSpec{Name: "R2", Coins: Coins(1000, 0)},
+		mc.AcctSpec{Name: "C", Coins: Coins(1000, 0).Add(coin(mc.Tok, big.NewInt(5000)))},
 	)
 	s := &Scenario{Name: "stranded", Genesis: g, KeyTimeNs: true, Annotate: annotateTopUp}
 	op := func(name string, m model.Msg) Action { return Action{Name: name, Dt: time.Second, Txs: tx1(m)} }
@@ -87,6 +88,22 @@ func c12Scenario() *Scenario {
 			}
 			s.Actions = append(s.Actions, a)
 		}
+	}
+	// a sender of modest means who puts everything it holds into its stream: the top-up of exactly the whole
+	// balance is affordable and must go through, and the stream stays claimable and cancellable afterwards
+	{
+		key := "R2|C"
+		has := func(m *model.State, _ map[string]int) bool { _, ok := m.Str[key]; return ok }
+		s.Actions = append(s.Actions,
+			op("create(S4)", model.Msg{Kind: model.StrCreate, From: "C", To: "R2", Den: mc.Tok, Amt: "3000", Rate: 1}),
+			op("claim(S4)", model.Msg{Kind: model.StrClaim, From: "R2", To: "C"}),
+			op("cancel(S4)", model.Msg{Kind: model.StrCancel, From: "C", To: "R2"}),
+			Action{Name: "topup(S4,everything C holds)", Dt: time.Second,
+				Txs: func(m *model.State) []model.Tx {
+					return []model.Tx{{Msgs: []model.Msg{{Kind: model.StrTopUp, From: "C", To: "R2", Den: mc.Tok, Amt: m.BalOf("C", mc.Tok).String()}}}}
+				},
+				Enabled: func(m *model.State, aux map[string]int) bool { return has(m, aux) && m.BalOf("C", mc.Tok).Sign() > 0 }},
+		)
 	}
 	// a receiver that can never be paid (a blocked module account), in both spellings of its address: such a
 	// stream must not come into being - its deposit could only be stranded
